@@ -358,11 +358,11 @@ def oracle(c, o):
         return 'target-mismatch', 'target received %d bytes that are not a prefix of the peer stream (first difference at %d)' % (
             len(ftgt), next((i for i in range(min(len(ftgt), len(s))) if ftgt[i] != s[i]), min(len(ftgt), len(s))))
     complete = py_complete(s)
-    if c['dial'] == 'fail':
+    if c['dial'] == 'fail' and cls == 'web':
         if complete and o['pc'] != '1':
             return 'not-closed-on-dial-failure', 'redirect dial failed and the peer connection was not closed'
         return None
-    if c['dial'] == 'wfail':
+    if c['dial'] == 'wfail' and cls == 'web':
         if complete and (o['pc'] != '1' or o['wc'] != '1'):
             return 'not-closed-on-write-failure', 'first write to the target failed and a connection was left open'
         return None
